@@ -44,6 +44,12 @@ def plan(tier, seed):
                                               "attribute=True + pad round trips"})
         for sh in E1.shard_prefixes(ALPH[an], L, 2):
             tasks.append((name, (an, tn, L, sh)))
+    scopes.append({"name": "table-switch", "alphabet": A_NOP, "bound_L": 4 if thorough else 3,
+                   "tables": ["default", "mix", "octet_rule", "big", "default"],
+                   "desc": "each string is decoded unpadded and in three padded forms under every table in turn (the table changes "
+                           "between consecutive decodes of the same padded string)"})
+    for k in range(16):
+        tasks.append(("table-switch", ("switch", k, 16, 4 if thorough else 3)))
     runs = [1, 2, 3, 10, 100, 500, 900, 1000, 1100, 2000, 5000] + ([20000] if thorough else [])
     scopes.append({"name": "long-nop-runs", "run_lengths": runs,
                    "desc": "k consecutive [nop] at every position of each base string (incl. index positions, inside nested "
@@ -194,7 +200,38 @@ def run_runs(arg, r):
     return r
 
 
+def run_switch(arg, r):
+    _, k, nsh, L = arg
+    cnt = 0
+    for l in range(1, L + 1):
+        for w in itertools.product(A_NOP, repeat=l):
+            cnt += 1
+            if cnt % nsh != k:
+                continue
+            s = "".join(w)
+            forms = ["[nop]" + s, "[nop]".join(w) + "[nop]", s + "[nop][nop]"]
+            r.states += 1
+            for tn in ("default", "mix", "octet_rule", "big", "default"):
+                tables.set_table(_SF, tn)
+                _CUR[0] = tn
+                base = outcome(s)
+                for v in forms:
+                    r.evaluations += 1
+                    r.transitions += 1
+                    got = outcome(v)
+                    if got != base:
+                        r.violation("nop-changes-outcome-after-table-switch", {"selfies": s, "padded": v, "table": _SF.get_semantic_constraints(),
+                                                                               "tables_before": "default, mix, octet_rule, big (in this order, same strings)"},
+                                    "under table %s decoder(%r)=%r but decoder(%r)=%r" % (tn, s, base, v, got))
+                    else:
+                        r.validated += 1
+    r.sample({"scope": "table-switch", "selfies": "[C][=N][O]", "padded": "[nop][C][=N][O]"}, 1)
+    return r
+
+
 def run(task):
+    if task[1][0] == "switch":
+        return run_switch(task[1], Result())
     if task[1][0] == "runs":
         return run_runs(task[1], Result())
     scope, (an, tn, L, sh) = task
